@@ -95,6 +95,20 @@ def gen(ctx, rng):
         if sum(1 for v in yl if v != -3000.0) >= 5:
             cases.append(dict(kind="wcvp" if it % 3 == 0 else "wcv", y=yl, nodata=-3000.0, llas=[float(v) for v in np.arange(0.0, float(rng.choice([1.5, 2.5, 3.5])), 1.0)],
                               robust=True, n=n, miss=sum(1 for v in yl if v == -3000.0), degenerate=False, p=0.9 if it % 3 == 0 else None))
+    # the same family at fixed positions (exactly flat, spike in the middle, gaps away from it), so that its presence does not depend on the seed
+    for fi, (m, level, height, gaps, llas) in enumerate([
+            (15, -50.0, 500.0, [5], [float(v) for v in np.arange(-1.8, 4.2, 0.2)]),
+            (13, -50.0, 100.0, [4, 8], [float(v) for v in np.arange(-1.8, 4.2, 0.2)]),
+            (21, -200.0, 100.0, [2, 18], [float(v) for v in np.arange(-1.8, 4.2, 0.2)]),
+            (11, -500.0, 1000.0, [3], [-2.0, -1.0, 0.0, 1.0]),
+            (12, -120.0, 400.0, [2, 9], [0.0, 1.0, 2.0])]):
+        yl = [level] * m
+        yl[m // 2] = level + height
+        for g in gaps:
+            yl[g] = -3000.0
+        for kind in ("wcv", "wcvp"):
+            cases.append(dict(kind=kind, y=list(yl), nodata=-3000.0, llas=llas, robust=True, n=m, miss=len(gaps), degenerate=False,
+                              p=0.8 if kind == "wcvp" else None))
     acc = []
     for k in range(8 if ctx.thorough else 4):
         T = int(rng.integers(10, 40))
@@ -156,6 +170,10 @@ def spec(c, r):
     else:
         vals = [o for o, ok in zip(r["out"], valid) if ok]
         data = [v for v, ok in zip(c["y"], valid) if ok]
+        sv = r.get("solves") or {}
+        if sv.get("same_as_compiled") and sv.get("min_weighted", 9) < 2:
+            return ("robust mode degenerated: a solve of the Whittaker system ran with %d weighted cell(s) (singular system; %d solves observed in the "
+                    "kernel's source run in the interpreter, whose band and lambda equal the compiled kernel's)" % (sv["min_weighted"], sv["n_solves"]))
         if all(o == 0 for o in vals) and any(abs(v) > 2 for v in data):
             return "robust result is all zeros on non-zero data (degenerate weights)"
         if c["degenerate"] and c["kind"] == "wcv" and sum(valid) == c["n"]:
@@ -174,7 +192,7 @@ def run(ctx):
         ctx.violation("implementation run failed", dict(kind="impl-crash", log=log[-3000:]), found_input=False)
         return
     spec_fail, coq, meta = [], [], []
-    dist = dict(wcv=0, wcvp=0, robust=0, degenerate=0, with_gaps=0, nonfinite_cells=0, passthrough=0, accessor_pixels=0, grid_sizes={})
+    dist = dict(solves_observed=0, wcv=0, wcvp=0, robust=0, degenerate=0, with_gaps=0, nonfinite_cells=0, passthrough=0, accessor_pixels=0, grid_sizes={})
     for c, r in zip(cases, res["kernels"]):
         m = dict(kind=c["kind"], n=c["n"], nodata=c["nodata"], p=c.get("p"), robust=c["robust"], srange=[c["llas"][0], c["llas"][-1], len(c["llas"])],
                  y=c["y"] if c["n"] <= 30 else None, lopt=r.get("lopt"), out=r.get("out") if c["n"] <= 30 else None)
@@ -183,6 +201,7 @@ def run(ctx):
             continue
         dist[c["kind"]] += 1
         dist["robust"] += 1 if c["robust"] else 0
+        dist["solves_observed"] += 1 if (r.get("solves") or {}).get("same_as_compiled") else 0
         dist["degenerate"] += 1 if c["degenerate"] else 0
         dist["with_gaps"] += 1 if c["miss"] else 0
         dist["nonfinite_cells"] += sum(1 for v in c["y"] if v is None or v in (float("inf"), float("-inf")))
